@@ -168,6 +168,29 @@ UNITS.append(Unit(ghost=True, cross_key=_key,
                 and frames_ok(out.value, 'F'))],
     canary=Case('canary', lambda v: True, lambda v, out: out.kind == 'ret' and out.value['F_value'] == 'STALE-F'),
     call=run(False, F_ADDR), native_call=run(True, F_ADDR)))
+# an ARRAY result stays in the cell of its formula: no other cell is written, no cell appears (C04: nothing else changes; C05: evaluation
+# leaves the other cells alone whatever the order)
+def _array_run(native):
+    def call(it, fn, x):
+        arr = T().Array([[x, 2.0], [3.0, 4.0]])
+        out = (run(True, F_ADDR)(fn, arr)) if native else run(False, F_ADDR)(it, fn, arr)
+        out['arr'] = arr
+        return out
+    if native:
+        return lambda fn, x: call(None, fn, x)
+    return call
+
+
+for _p in ('C04', 'C05'):
+    UNITS.append(Unit(ghost=True, cross_key=_key,
+        id=f'{_p}/evaluator.Evaluator.evaluate/array_result_stays_in_its_cell', target='xlcalculator.evaluator:Evaluator.evaluate', prop=_p,
+        inputs=[('x', Xl('Number', 'real', domain=[1.5, 0.0]))],
+        cases=[Case('a formula whose result is an array: the array is the result and the stored value of THAT cell; no other cell is written and no cell appears',
+                    lambda x: True,
+                    lambda x, out: out.kind == 'ret' and out.value['exc'] is None and out.value['res'] is out.value['arr']
+                    and out.value['F_value'] is out.value['arr'] and out.value['K_value'] == 41 and out.value['G_value'] == 'STALE-G'
+                    and sorted(out.value['objs']['model'].cells) == sorted([F_ADDR, G_ADDR, K_ADDR]) and frames_ok(out.value, 'F'))],
+        call=_array_run(False), native_call=_array_run(True)))
 # through a defined name
 UNITS.append(Unit(ghost=True, cross_key=_key,
     id='C04/evaluator.Evaluator.evaluate/defined_name', target='xlcalculator.evaluator:Evaluator.evaluate', prop='C04',
